@@ -194,9 +194,12 @@ pub fn check_delivery(w: &World, plan: &Plan, prop: &str, is_async: bool) -> Opt
                     return v(prop, "4-consume", "size", "recv", format!("message {}: receiver-side size() {} != sent frame length {}", i, size, a.frame_len));
                 }
                 let r = &w.recvs[*ri];
-                if let RecvOutcome::Msg { occupied, .. } = &r.outcome {
+                if let RecvOutcome::Msg { occupied, view_len, .. } = &r.outcome {
                     if *size > *occupied {
                         return v(prop, "4-consume", "over-consume", "recv", format!("message {}: size() {} exceeds the {} bytes held", i, size, occupied));
+                    }
+                    if *view_len > *occupied {
+                        return v(prop, "4-consume", "view-beyond-received", "recv", format!("message {}: the handed-out value spans {} bytes, only {} are held by the receiver", i, view_len, occupied));
                     }
                 }
             }
